@@ -10,6 +10,13 @@ from scipy.linalg import pinvh, eigh
 import sys
 import time
 import warnings
+import inspect
+
+# scikit-learn 1.6 renamed the `force_all_finite` keyword of its validators to
+# `ensure_all_finite` (and removed the old name in 1.8)
+_FINITE_KW = ('ensure_all_finite' if 'ensure_all_finite' in
+              inspect.signature(check_array).parameters
+              else 'force_all_finite')
 
 # hack around lack of axis kwarg in older numpy versions
 try:
@@ -108,7 +115,7 @@ def check_input(input_data, y=None, preprocessor=None,
 
   args_for_sk_checks = dict(accept_sparse=accept_sparse,
                             dtype=dtype, order=order,
-                            copy=copy, force_all_finite=force_all_finite,
+                            copy=copy, **{_FINITE_KW: force_all_finite},
                             ensure_min_samples=ensure_min_samples,
                             ensure_min_features=ensure_min_features,
                             estimator=estimator)
@@ -118,12 +125,12 @@ def check_input(input_data, y=None, preprocessor=None,
   # we use check_array/check_X_y with fixed permissive arguments.
   if y is None:
     input_data = check_array(input_data, ensure_2d=False, allow_nd=True,
-                             copy=False, force_all_finite=False,
+                             copy=False, **{_FINITE_KW: False},
                              accept_sparse=True, dtype=None,
                              ensure_min_features=0, ensure_min_samples=0)
   else:
     input_data, y = check_X_y(input_data, y, ensure_2d=False, allow_nd=True,
-                              copy=False, force_all_finite=False,
+                              copy=False, **{_FINITE_KW: False},
                               accept_sparse=True, dtype=None,
                               ensure_min_features=0, ensure_min_samples=0,
                               multi_output=multi_output,
@@ -319,7 +326,7 @@ class ArrayIndexer:
     # array object which can be indexed by another numpy array object.
     X = check_array(X,
                     accept_sparse=True, dtype=None,
-                    force_all_finite=False,
+                    **{_FINITE_KW: False},
                     ensure_2d=False, allow_nd=True,
                     ensure_min_samples=0, ensure_min_features=0,
                     estimator=None)
